@@ -295,7 +295,7 @@ def run_shard(ctx, spec):
         _, idx, n = spec
         inj = injectors()
         rng = ctx.rng("inj/%d" % idx)
-        nhosts = 5 if ctx.tier == "quick" else 25
+        nhosts = 12 if ctx.tier == "quick" else 40
         hosts = []
         for h in range(nhosts):
             prog = gen.valid_program(random.Random("host/%d/%d" % (ctx.seed, h)), max_files=2, single_module=None)
@@ -312,7 +312,7 @@ def run_shard(ctx, spec):
                 ctx.note_case(("inj", rule, h))
             ctx.stats["injector_rules"] += 1
         # k = 2..3 random combinations (names are made unique per snippet)
-        for _ in range((2000 if ctx.tier == "quick" else 40000) // n):
+        for _ in range((20000 if ctx.tier == "quick" else 300000) // n):
             k = rng.choice([2, 2, 3])
             chosen = rng.sample(inj, k)
             host = list(rng.choice(hosts))
@@ -366,7 +366,7 @@ def run_shard(ctx, spec):
 def plan(tier, seed):
     specs = [("injectors", i, 16) for i in range(16)]
     specs += [("files",), ("small", "members"), ("small", "keys"), ("small", "streams")]
-    n = 1600 if tier == "quick" else 40000
+    n = 16000 if tier == "quick" else 200000
     specs += [("accept", n // 16, i) for i in range(16)]
     return specs
 
@@ -384,7 +384,7 @@ def main(tier, seed):
               "error codes must be a non-empty subset of the violated rules' codes and contain the rule's code for single "
               "violations. Small-scope exhaustive: every {tag, optional, compact} assignment over <= 3 members in 6 containers, %d "
               "key forms x 5 places, every stream placement over <= 3 parameters / return members. distinct_nontrivial = distinct "
-              "(rule, host) / family members / programs" % (ninj, 6 if tier == "quick" else 26, len(KEY_FORMS))),
+              "(rule, host) / family members / programs" % (ninj, 13 if tier == "quick" else 41, len(KEY_FORMS))),
         required={"injector_rules": 150, "reject_cases": 1500, "accept_cases": 1000, "small_scope_cases": 1000, "combination_cases": 500,
                   "file_level_cases": 15},
         assumptions=["parameters and return members are separate name scopes", "`A()` under an underlying type is not generated",
